@@ -1,7 +1,230 @@
-import I2N.Model.Cmd
+import I2N.Lemmas.Cmd
+/-! C11 — command line selections and overrides mean what the documentation says. -/
 namespace I2N.Props.C11
 open I2N.Cmd
 
-theorem placeholder : True := trivial
+/-- a tiny but complete configuration used by the non-vacuity examples -/
+def av0 : Avail :=
+  { vms := ["vm1".toList, "vm2".toList]
+    restrictions := ["all".toList, "normal".toList, "minimal".toList]
+    defaultOnly := some "normal".toList
+    defaultVm := [("vm1".toList, "CentOS".toList)]
+    tests := [["all".toList, "quicktest".toList, "tutorial1".toList],
+              ["all".toList, "tutorial2".toList, "files".toList],
+              ["normal".toList, "quicktest".toList, "tutorial1".toList],
+              ["normal".toList, "tutorial2".toList, "files".toList],
+              ["minimal".toList, "quicktest".toList, "tutorial1".toList]]
+    nets := [(["nets".toList, "localhost".toList, "net1".toList], "net1".toList),
+             (["nets".toList, "localhost".toList, "net2".toList], "net2".toList)]
+    vmObjs := [("vm1".toList, [["vm1".toList, "Linux".toList, "CentOS".toList], ["vm1".toList, "Linux".toList, "Fedora".toList]])] }
+
+def args0 (l : List String) : List Str := l.map String.toList
+
+/-! ## malformed arguments are rejected -/
+
+/-- Any argument list containing an argument that is not of the form `<\w+>=<value>` is rejected
+(whatever else it contains and wherever the argument stands). -/
+theorem malformed_rejected (av : Avail) (args : List Str) (a : Str)
+    (hmem : a ∈ args) (hbad : splitArg a = none) : ∃ e, paramsFromCmd av args = .error e := by
+  apply paramsFromCmd_error_of_loop
+  apply loop_rejects (a := a) _ args _ hmem
+  intro st
+  exact ⟨.valueError, by simp [step, hbad]⟩
+
+example : splitArg "ccc".toList = none := by decide
+example : splitArg " a=x".toList = none := by decide
+example : splitArg "=x".toList = none := by decide
+example : splitArg "a==x".toList = some ("a".toList, "=x".toList) := by decide
+example : ∃ e, paramsFromCmd av0 (args0 ["aaa=bbb", "ccc"]) = .error e :=
+  malformed_rejected av0 _ "ccc".toList (by decide) (by decide)
+/-- and the error is the documented `ValueError` when nothing before it fails -/
+example : paramsFromCmd av0 (args0 ["aaa=bbb", "ccc"]) = .error .valueError := by decide
+
+
+/-! ## unknown vms are rejected -/
+
+/-- A `vms=` argument naming a vm that is not available is rejected, wherever it stands. -/
+theorem unknown_vm_rejected (av : Avail) (args : List Str) (a v x : Str)
+    (hmem : a ∈ args) (hkv : splitArg a = some (kVms, v))
+    (hx : x ∈ splitComma v) (hun : x ∉ av.vms) : ∃ e, paramsFromCmd av args = .error e := by
+  apply paramsFromCmd_error_of_loop
+  apply loop_rejects (a := a) _ args _ hmem
+  intro st
+  have hc : classify av a = .vms v := classify_vms_iff.mpr hkv
+  have h5 : (splitComma v).all (av.vms.contains ·) = false := by
+    rw [List.all_eq_false]
+    exact ⟨x, hx, by simpa using hun⟩
+  exact ⟨.valueError, by rw [step_eq, hc]; simp only [stepC, h5]; rfl⟩
+
+example : ∃ e, paramsFromCmd av0 (args0 ["only=normal", "vms=vm1,vmX"]) = .error e :=
+  unknown_vm_rejected av0 _ "vms=vm1,vmX".toList "vm1,vmX".toList "vmX".toList
+    (by decide) (by decide) (by decide) (by decide)
+/-- the empty selection `vms=` names the vm `""` -/
+example : paramsFromCmd av0 (args0 ["vms="]) = .error .valueError := by decide
+/-- conversely every vm of an accepted configuration is available, and the selection is the last
+`vms=` given (all available vms if none) -/
+theorem vms_selection (av : Avail) (args : List Str) (c : Config)
+    (h : paramsFromCmd av args = .ok c) :
+    c.vms = lastVms av av.vms args ∧ ∀ x ∈ c.vms, x ∈ av.vms := by
+  obtain ⟨st, hl, hf⟩ := paramsFromCmd_ok h
+  obtain ⟨tl, ls, _, _, _, hc⟩ := finish_ok hf
+  have hv : c.vms = st.selVms := by rw [hc]
+  refine ⟨by rw [hv, loop_selVms args _ st hl]; rfl, ?_⟩
+  rw [hv]
+  have key : ∀ (args : List Str) (st st' : St), (∀ x ∈ st.selVms, x ∈ av.vms) →
+      loop av st args = .ok st' → ∀ x ∈ st'.selVms, x ∈ av.vms := by
+    intro args
+    induction args with
+    | nil => intro st st' hi hl; simp [loop] at hl; subst hl; exact hi
+    | cons b bs ih =>
+      intro st st' hi hl
+      obtain ⟨st1, hs, hl'⟩ := loop_ok_cons.mp hl
+      refine ih st1 st' ?_ hl'
+      have hs' := stepC_ok_of_step hs
+      rw [stepC_selVms st st1 _ hs']
+      cases hc : classify av b with
+      | vms v =>
+        simp only [hc, stepC] at hs'
+        split at hs'
+        · rename_i hall
+          intro x hx
+          have := (List.all_eq_true.mp hall) x hx
+          simpa using this
+        · cases hs'
+      | bad => exact hi
+      | test _ _ => exact hi
+      | netsR _ _ => exact hi
+      | vmR _ _ _ => exact hi
+      | badObj _ _ => exact hi
+      | nets _ => exact hi
+      | other _ _ => exact hi
+  exact key args (St.init av) st (by simp [St.init]) hl
+
+example : (paramsFromCmd av0 (args0 ["vms=vm1,vm2", "only=minimal", "vms=vm2"])).toOption.map (·.vms)
+    = some ["vm2".toList] := by decide
+
+/-! ## unknown object restrictions -/
+
+/-- An `only_X=`/`no_X=` argument is rejected when `X` is not `nets…` and **no available vm name is a
+prefix of `X`**.  The full statement (`X` is not exactly an available vm or `nets` ⇒ rejected) is false
+for the code as it is: the key is matched with `re.match(f"(only|no)_{vm}", key)`, a prefix match —
+see the witnesses below (candidate finding `object-restr-prefix-match`). -/
+theorem unknown_object_restr_rejected_partial (av : Avail) (args : List Str) (a k v : Str)
+    (hmem : a ∈ args) (hkv : splitArg a = some (k, v)) (hobj : isObjKey k = true)
+    (hnn : netsKey k = false) (hnone : av.vms.all (fun vm => !vmKey k vm) = true) :
+    ∃ e, paramsFromCmd av args = .error e := by
+  apply paramsFromCmd_error_of_loop
+  apply loop_rejects (a := a) _ args _ hmem
+  intro st
+  have hf : av.vms.find? (vmKey k) = none := by
+    rw [List.find?_eq_none]
+    intro x hx
+    have := (List.all_eq_true.mp hnone) x hx
+    simpa using this
+  have hc : classify av a = .badObj k v :=
+    classify_badObj_iff.mpr ⟨hkv, isObjKey_not_test k hobj, hobj, hnn, hf⟩
+  exact ⟨.valueError, by rw [step_eq, hc]; rfl⟩
+
+example : ∃ e, paramsFromCmd av0 (args0 ["only_something=restr"]) = .error e :=
+  unknown_object_restr_rejected_partial av0 _ "only_something=restr".toList "only_something".toList
+    "restr".toList (by decide) (by decide) (by decide) (by decide) (by decide)
+example : paramsFromCmd av0 (args0 ["no_vm4=Fedora"]) = .error .valueError := by decide
+/-- witness that the full statement fails: `vm10` is not an available vm, the argument is accepted and
+vm1 gets the corrupted restriction line `only0 x` -/
+example : (paramsFromCmd av0 (args0 ["only_vm10=x"])).toOption.map (·.availableVms)
+    = some [("vm1".toList, [("only0".toList, "x".toList)]), ("vm2".toList, [])] := by decide
+/-- and `only_vm1_vm1=Fedora` is silently read as `only_vm1=Fedora` -/
+example : (paramsFromCmd av0 (args0 ["only_vm1_vm1=Fedora"])).toOption.map (·.availableVms)
+    = (paramsFromCmd av0 (args0 ["only_vm1=Fedora"])).toOption.map (·.availableVms) := by decide
+
+/-! ## conflicting net selections -/
+
+/-- `nets=` *after* a non-empty `only_nets…=`/`no_nets…=` (with no other nets restriction in between) is
+rejected.  The full statement — any list containing both is rejected — is false for the code as it
+is: the conflict is only checked in the `nets=` branch (candidate finding F6, `nets-conflict-order`). -/
+theorem nets_conflict_rejected_partial (av : Avail) (pre mid post : List Str) (r n kr vr vn : Str)
+    (hr : splitArg r = some (kr, vr)) (hkr : netsKey kr = true) (hvr : vr ≠ [])
+    (hmid : ∀ m ∈ mid, ∀ k v, splitArg m = some (k, v) → netsKey k = false)
+    (hn : splitArg n = some (kNets, vn)) :
+    ∃ e, paramsFromCmd av (pre ++ r :: (mid ++ n :: post)) = .error e := by
+  apply paramsFromCmd_error_of_loop
+  cases hl : loop av (St.init av) (pre ++ r :: (mid ++ n :: post)) with
+  | error e => exact ⟨e, rfl⟩
+  | ok st' =>
+    exfalso
+    obtain ⟨st1, _, h2⟩ := loop_ok_append.mp hl
+    obtain ⟨st2, hs2, h3⟩ := loop_ok_cons.mp h2
+    obtain ⟨st3, h4, h5⟩ := loop_ok_append.mp h3
+    obtain ⟨st4, hs4, _⟩ := loop_ok_cons.mp h5
+    have c2 : classify av r = .netsR kr vr := classify_netsR_iff.mpr ⟨hr, hkr⟩
+    have n2 : st2.netsStr = netsOf kr vr := by
+      have := stepC_netsStr st1 st2 _ (stepC_ok_of_step hs2)
+      rw [this, c2]
+    have n3 : st3.netsStr = st2.netsStr := by
+      apply loop_netsStr_keep mid st2 st3 _ h4
+      intro m hm k v hc
+      obtain ⟨hs, hk⟩ := classify_netsR_iff.mp hc
+      have := hmid m hm k v hs
+      rw [this] at hk; cases hk
+    have c4 : classify av n = .nets vn := classify_nets_iff.mpr hn
+    have hs4' := stepC_ok_of_step hs4
+    have hsome : st3.netsStr.isSome = true := by
+      rw [n3, n2]
+      have : vr.isEmpty = false := by simpa using hvr
+      simp [netsOf, this]
+    simp [c4, stepC, hsome] at hs4'
+
+example : ∃ e, paramsFromCmd av0 (args0 ["only_nets=net2", "aaa=bbb", "nets=net1"]) = .error e :=
+  nets_conflict_rejected_partial av0 [] [ "aaa=bbb".toList ] [] "only_nets=net2".toList "nets=net1".toList
+    "only_nets".toList "net2".toList "net1".toList (by decide) (by decide) (by decide)
+    (by intro m hm k v hs
+        simp only [List.mem_singleton] at hm
+        subst hm
+        have : splitArg "aaa=bbb".toList = some ("aaa".toList, "bbb".toList) := by decide
+        rw [this] at hs; cases hs; decide)
+    (by decide)
+/-- witness that the full statement fails (F6): the reverse order is accepted and the explicit suffix
+`net1` is silently replaced by `net2` -/
+example : (paramsFromCmd av0 (args0 ["nets=net1", "only_nets=net2"])).toOption.map (·.paramDict)
+    = some [("nets".toList, "net2".toList)] := by decide
+example : paramsFromCmd av0 (args0 ["only_nets=net2", "nets=net1"]) = .error .valueError := by decide
+/-- an empty nets restriction is no restriction (so no conflict) -/
+example : (paramsFromCmd av0 (args0 ["only_nets=", "nets=net1"])).toOption.map (·.paramDict)
+    = some [("nets".toList, "net1".toList)] := by decide
+
+/-! ## the default primary restriction -/
+
+/-- The restriction lines of an accepted command line are exactly the typed `only=`/`no=` in their
+order, followed by `only <default>` **iff** no typed value names a primary restriction; the default
+is `default_only` of the command line, else of the configuration, else `all`. -/
+theorem default_iff_no_primary (av : Avail) (args : List Str) (c : Config)
+    (h : paramsFromCmd av args = .ok c) :
+    c.testsLines = typedTests av args ++
+      (if args.any (primaryArg av) then [] else [(kOnly, testsDefault av c.paramDict)]) := by
+  obtain ⟨st, hl, hf⟩ := paramsFromCmd_ok h
+  obtain ⟨tl, ls, hft, _, _, hc⟩ := finish_ok hf
+  obtain ⟨t1, t2⟩ := loop_tests args _ st hl
+  have hpd : c.paramDict = st.pd := by rw [hc]
+  have htl : c.testsLines = tl := by rw [hc]
+  rw [htl, hpd]
+  simp only [St.init, List.nil_append, Bool.true_and] at t1 t2
+  unfold fullTestsStr at hft
+  rw [t2, t1] at hft
+  cases hany : args.any (primaryArg av) with
+  | true => simp [hany] at hft; simp [hft]
+  | false =>
+    simp only [hany, Bool.not_false, if_true] at hft
+    split at hft
+    · cases hft; simp
+    · cases hft
+
+/-- a default that is not a primary restriction is rejected (only when it is needed) -/
+example : paramsFromCmd av0 (args0 ["default_only=nonminimal"]) = .error .valueError := by decide
+example : (paramsFromCmd av0 (args0 ["default_only=nonminimal", "only=minimal"])).toOption.map (·.testsLines)
+    = some [("only".toList, "minimal".toList)] := by decide
+example : (paramsFromCmd av0 (args0 ["only=tutorial1"])).toOption.map (·.testsLines)
+    = some [("only".toList, "tutorial1".toList), ("only".toList, "normal".toList)] := by decide
+example : (paramsFromCmd av0 (args0 ["only=tutorial1", "only=all..quicktest"])).toOption.map (·.testsLines)
+    = some [("only".toList, "tutorial1".toList), ("only".toList, "all..quicktest".toList)] := by decide
 
 end I2N.Props.C11
